@@ -242,7 +242,7 @@ def avr_br(obj, k):
 @ispec("16<[ 1001 0101 1001 1000]", mnemonic="BREAK", type=type_system)
 @ispec("16<[ 1001 0101 1010 1000]", mnemonic="WDR", type=type_system)
 @ispec("16<[ 1001 0101 1000 1000]", mnemonic="SLEEP", type=type_system)
-@ispec("16<[ 1001 0101 1001 1000]", mnemonic="EICALL", type=type_control_flow)
+@ispec("16<[ 1001 0101 0001 1001]", mnemonic="EICALL", type=type_control_flow)
 @ispec("16<[ 1001 0100 0001 1001]", mnemonic="EIJMP", type=type_control_flow)
 @ispec("16<[ 1001 0101 1101 1000]", mnemonic="ELPM", type=type_data_processing)
 @ispec("16<[ 1001 0101 1100 1000]", mnemonic="LPM", type=type_data_processing)
